@@ -48,6 +48,8 @@ type c18Observed struct {
 	Blocked   string   `json:"blocked_signature"`
 	SetupErr  string   `json:"setup_error,omitempty"`
 	Millis    int64    `json:"millis"`
+	linger    string    // lock waits of background goroutines (watcher loops, registrations) still there after the scenario
+	lingerAt  time.Time
 }
 
 type c18Call struct {
@@ -303,7 +305,26 @@ func c18RunScenario(sc c18Scenario, dir string, watchdog time.Duration, dump fun
 			obs.Blocked = "blocked:" + strings.Join(obs.Pending, ",")
 		}
 	} else {
-		n.Close()
+		// goroutines the code itself started (watcher loops, asynchronous registrations) must not be left waiting for a
+		// lock either: a wait chain seen now and again 1.5 s later is kept as a candidate and confirmed at the end of the run
+		if a := c18BlockedSignature(dump(), sc.Idx); a != "" {
+			time.Sleep(1500 * time.Millisecond)
+			b := c18BlockedSignature(dump(), sc.Idx)
+			common := []string{}
+			for _, x := range strings.Split(a, " || ") {
+				for _, y := range strings.Split(b, " || ") {
+					if x == y {
+						common = append(common, x)
+					}
+				}
+			}
+			if len(common) > 0 {
+				obs.linger, obs.lingerAt = strings.Join(common, " || "), time.Now()
+			}
+		}
+		if obs.linger == "" {
+			n.Close()
+		}
 	}
 	obs.Millis = time.Since(t0).Milliseconds()
 	return obs
@@ -361,6 +382,39 @@ func runC18(args []string) error {
 		}(i)
 	}
 	wg.Wait()
+	// confirm lingering lock waits: still in the profile one watchdog period after they were first seen
+	var latest time.Time
+	for i := range res {
+		if res[i].linger != "" && res[i].lingerAt.After(latest) {
+			latest = res[i].lingerAt
+		}
+	}
+	if !latest.IsZero() {
+		if w := time.Until(latest.Add(*wd)); w > 0 {
+			time.Sleep(w)
+		}
+		lastDumpAt = time.Time{}
+		final := dump()
+		for i := range res {
+			if res[i].linger == "" {
+				continue
+			}
+			still := []string{}
+			now := c18BlockedSignature(final, scs[i].Idx)
+			for _, x := range strings.Split(res[i].linger, " || ") {
+				for _, y := range strings.Split(now, " || ") {
+					if x == y {
+						still = append(still, x)
+					}
+				}
+			}
+			if len(still) > 0 {
+				res[i].Completed = false
+				res[i].Pending = append(res[i].Pending, "background goroutine")
+				res[i].Blocked = strings.Join(still, " || ")
+			}
+		}
+	}
 	cf := NewCaseFile("From PS Require Import Gen.Tables Model.C18Corr.", "c18_case", "c18_check", "c18_monitor")
 	matN := map[string]int{"not_yet": 0, "just": 1, "long": 2}
 	ordN := map[string]int{"trigger_first": 0, "block_first": 1, "concurrent": 2}
